@@ -11,6 +11,7 @@
 import Csvq.Lemmas.Escape
 import Csvq.Lemmas.Scanner
 import Csvq.Lemmas.UnaryPrint
+import Csvq.Lemmas.OpExpr
 namespace Csvq.C18
 open Csvq.Esc Csvq.Scan Csvq.UPrint
 
@@ -219,6 +220,84 @@ theorem unary_printOld_comment_iff (e : UExpr) (h : e.atomsClean = true) :
   | paren e ih =>
     simpa [UExpr.printOld, UExpr.noMinusMinus, hco_cons_other '(' _ (by decide) (by decide), hco_append_close] using ih h
 
+/-! ## GRAMMAR LAYER, operator-expression fragment (lib/parser/parser.y, table regenerated into Csvq/Gen/Precedence.lean)
+
+  Binary operators (OR, AND, = and the COMPARISON_OP spellings, LIKE, ||, + - * / %), prefix operators (NOT, !, unary
+  - +), the postfix test IS [NOT] NULL/TRUE/FALSE/UNKNOWN, written parentheses, atoms.  `OpExpr.parse` is precedence
+  climbing whose every decision is yacc's resolution rule `act` on the levels of the table; the theorems hold for
+  EVERY table, in particular for `genTable`, and for trees of any depth.
+
+  Full statement for the whole `value` grammar (NOT proved here; BETWEEN, IN, NOT LIKE / NOT IN / NOT BETWEEN, ANY / ALL,
+  row values and the non-operator values are validated by correspondence only — laws print_parse_fixpoint:*,
+  print_parse_tree_differs, stream op c18.opx covers exactly the proved fragment):
+      theorem value_print_parse (e : Value) (h : ParserBuilt e) : parseValue (printValue e) = some e
+  `op_print_parse` below is its partial form: the same statement for the operator fragment.
+-/
+
+open Csvq.OpExpr in
+/-- `parse (print e) = some e` for every tree the parser can build: operands that bind weaker than (or equal to, on
+    the side that does not associate) the operator applied to them are `paren` nodes — `WellFormed`. -/
+theorem op_print_parse {α : Type} [DecidableEq α] (tbl : Table α) (e : Expr α) (h : WellFormed tbl e) :
+    parse tbl (print tbl e) = some e := by
+  have hc := cost_le tbl e
+  have := parseE_print tbl e h.1 0 [] 1 (e, []) h.2 (by simp [Stop]) (loop_return tbl 0 e [] (by simp [Stop]) 0)
+    (3 * (print tbl e).length + 3) (by omega)
+  unfold parse
+  simp only [List.append_nil] at this
+  rw [this]
+
+open Csvq.OpExpr in
+/-- and `WellFormed` is exact: every tree `parse` returns is well formed -/
+theorem op_parse_wellformed {α : Type} [DecidableEq α] (tbl : Table α) (ts : List (Tok α)) (e : Expr α)
+    (h : parse tbl ts = some e) : WellFormed tbl e := by
+  unfold parse at h
+  cases hp : parseE tbl (3 * ts.length + 3) 0 ts with
+  | none => simp [hp] at h
+  | some q =>
+    obtain ⟨e', rest⟩ := q
+    simp only [hp] at h
+    cases rest with
+    | nil =>
+      simp only [Option.some.injEq] at h
+      subst h
+      obtain ⟨hw, hf, _⟩ := (parse_inv tbl _).1 _ _ _ _ hp
+      exact ⟨hw, hf⟩
+    | cons t ts' => simp at h
+
+open Csvq.OpExpr in
+/-- so printing and parsing are mutually inverse on what the parser builds: a parsed text prints to a text that
+    parses to the same tree -/
+theorem op_parse_print_parse {α : Type} [DecidableEq α] (tbl : Table α) (ts : List (Tok α)) (e : Expr α)
+    (h : parse tbl ts = some e) : parse tbl (print tbl e) = some e :=
+  op_print_parse tbl e (op_parse_wellformed tbl ts e h)
+
+open Csvq.OpExpr Csvq.Gen.Precedence in
+/-- the regenerated table: no token has two levels, and the levels of the fragment's operators are the ones the
+    model was reviewed against — totally ordered OR < AND < NOT < comparison (non-associative) < || < + - < * / % <
+    unary.  A change of the %left / %right / %nonassoc lines of parser.y changes Gen/Precedence and breaks this. -/
+theorem gen_precedence_order :
+    (levels.flatMap (·.2)).Nodup ∧
+    genTable.bin .OR = some (5, .left) ∧ genTable.bin .AND = some (6, .left) ∧ genTable.pre .NOT = some 7 ∧
+    genTable.bin .c_eq = some (8, .nonassoc) ∧ genTable.bin .COMPARISON_OP = some (8, .nonassoc) ∧
+    genTable.bin .LIKE = some (8, .nonassoc) ∧ genTable.post .IS = some (8, .nonassoc) ∧
+    genTable.bin .STRING_OP = some (9, .left) ∧
+    genTable.bin .c_plus = some (10, .left) ∧ genTable.bin .c_minus = some (10, .left) ∧
+    genTable.bin .c_star = some (11, .left) ∧ genTable.bin .c_slash = some (11, .left) ∧ genTable.bin .c_percent = some (11, .left) ∧
+    genTable.pre .c_minus = some 12 ∧ genTable.pre .c_plus = some 12 ∧ genTable.pre .c_bang = some 12 ∧
+    genTable.neg = .NOT ∧ genTable.bin .NOT = none ∧ genTable.bin .IS = none ∧ genTable.bin .c_bang = none := by
+  decide
+
+open Csvq.OpExpr Csvq.Gen.Precedence in
+/-- the round trip for the grammar csvq has today -/
+theorem gen_print_parse (e : Expr Term) (h : WellFormed genTable e) : parse genTable (print genTable e) = some e :=
+  op_print_parse genTable e h
+
+open Csvq.OpExpr Csvq.Gen.Precedence in
+/-- the hypothesis is needed: `(a + b) * c` built WITHOUT a Parentheses node prints `a + b * c`, another tree -/
+theorem gen_print_parse_needs_wellformed :
+    parse genTable (print genTable (.bin (.bin (.atom 0) .c_plus 0 (.atom 1)) .c_star 0 (.atom 2))) =
+      some (.bin (.atom 0) .c_plus 0 (.bin (.atom 1) .c_star 0 (.atom 2))) := by decide
+
 /-! ## non-vacuity -/
 
 example : escapeString ['a', '\'', '\n', '\\', '"'] = ['a', '\\', '\'', '\\', 'n', '\\', '\\', '"'] := by decide
@@ -239,5 +318,17 @@ example : (UExpr.neg (.neg (.bang (.bang (.atom ['a']))))).atomsClean = true ∧
     (UExpr.neg (.neg (.bang (.bang (.atom ['a']))))).print = ['-', ' ', '-', '!', ' ', '!', 'a'] := by decide
 example : (UExpr.neg (.neg (.atom ['1']))).print = ['-', ' ', '-', '1'] ∧ (UExpr.neg (.paren (.neg (.atom ['2'])))).print = ['-', '(', '-', '2', ')'] ∧
     (UExpr.neg (.atom ['1'])).print = ['-', '1'] ∧ (UExpr.bang (.bang (.atom ['T']))).print = ['!', ' ', '!', 'T'] := by decide
+
+-- the operator fragment: what the regenerated table makes of some texts (these trees are WellFormed by op_parse_wellformed)
+open Csvq.OpExpr Csvq.Gen.Precedence in
+example : parse genTable [.sym .NOT 0, .atom 0, .sym .c_eq 0, .atom 1, .sym .AND 0, .atom 2] =
+    some (.bin (.pre .NOT 0 (.bin (.atom 0) .c_eq 0 (.atom 1))) .AND 0 (.atom 2)) := by decide
+open Csvq.OpExpr Csvq.Gen.Precedence in
+example : parse genTable [.sym .c_minus 0, .atom 0, .sym .c_star 0, .lpar, .atom 1, .sym .c_minus 0, .atom 2, .rpar, .sym .IS 0, .sym .NOT 0, .lit 0] =
+    some (.post (.bin (.pre .c_minus 0 (.atom 0)) .c_star 0 (.paren (.bin (.atom 1) .c_minus 0 (.atom 2)))) .IS true 0) := by decide
+-- non-associative comparison: a = b = c is a syntax error; a IS NULL = b is not
+open Csvq.OpExpr Csvq.Gen.Precedence in
+example : parse genTable [.atom 0, .sym .c_eq 0, .atom 1, .sym .c_eq 0, .atom 2] = none ∧
+    parse genTable [.atom 0, .sym .IS 0, .lit 0, .sym .c_eq 0, .atom 1] = some (.bin (.post (.atom 0) .IS false 0) .c_eq 0 (.atom 1)) := by decide
 
 end Csvq.C18
